@@ -31,3 +31,20 @@ def logger_call_sites(index, registry, expected_functions):
     extra = sorted(set(sites) - set(expected_functions))
     return [{"name": "scan::logger_called_only_from_contracted_functions", "kind": "coverage", "top": False, "result": "unsat" if not extra else "sat",
              "secs": 0.0, "detail": sorted(set(sites)), "model": {"uncontracted_callers": extra}}]
+
+
+def deepcopy_on_store(index, registry):
+    """Structural obligation: the containers store deep copies (IterationHistory.__setitem__/record, OptimizeResult.__setitem__)."""
+    out = []
+    for qual in ("pybads.utils.iteration_history.IterationHistory.__setitem__", "pybads.utils.iteration_history.IterationHistory.record",
+                 "pybads.bads.optimize_result.OptimizeResult.__setitem__"):
+        fi = index.find(qual)
+        ok = False
+        if fi is not None:
+            for n in ast.walk(fi.node):
+                # the stored value is the result of copy.deepcopy(<parameter>)
+                if isinstance(n, ast.Call) and isinstance(n.func, ast.Attribute) and n.func.attr == "deepcopy" and n.args and isinstance(n.args[0], ast.Name) and n.args[0].id in ("val", "value"):
+                    ok = True
+        out.append({"name": "scan::deepcopy_on_store::" + qual.split(".")[-2] + "." + qual.split(".")[-1], "kind": "coverage", "top": True, "result": "unsat" if ok else "sat", "secs": 0.0,
+                    "model": {"function": qual, "found": fi is not None}})
+    return out
